@@ -15,7 +15,10 @@ pub const K: f64 = 1000.0;
 pub const EPS: f64 = f64::EPSILON;
 const LN_RANGE: f64 = 575.0; // ln(1e250)
 
+#[derive(Clone)]
 pub struct Eval {
+    /// the stability setting the evaluation ran with
+    pub stab: Option<f64>,
     pub ne: usize,
     pub nl: usize,
     pub dod: f64,
@@ -237,7 +240,7 @@ pub fn evaluate<const D: usize>(c: &Phys, ctx: &mut Ctx, stab: Option<f64>) -> R
         if f > 0.0 { 4.0 * sym.f_kin_err(&xs, delta) / f } else { 0.0 }
     };
     let tau_v = K * EPS * kappa * cv + kin_rel;
-    Ok(Some(Eval { ne, nl, dod, tab, out, sym, omega_ref, j_ref, path, in_range, lambda_in_range, xs, x0, params_ok, lq, detq, invq, kappa, u_or, v_or, a_term, cv, tau_u, tau_v }))
+    Ok(Some(Eval { stab, ne, nl, dod, tab, out, sym, omega_ref, j_ref, path, in_range, lambda_in_range, xs, x0, params_ok, lq, detq, invq, kappa, u_or, v_or, a_term, cv, tau_u, tau_v }))
 }
 
 pub fn rel(a: f64, b: f64) -> f64 {
